@@ -292,6 +292,94 @@ PROPS = {
                 "the classifier's conservativeness and the allow-list only. Process-level nondeterminism other than map iteration order, and goyang's own map ranges, are covered by the "
                 "multi-process experiment only.",
     ),
+    "C07": dict(
+        level="proof",
+        technique="Coq proof (tree induction: Validate = declarative validity minus named unchecked classes) + differential correspondence with single-fault mutation",
+        claim="validate (transcription of ytypes.Validate at tree level: containers, choices, lists incl. checkKeys and min/max, leaf-lists, leaves, unions, per-type validators; "
+              "parametrised by repair flags that are probed in the code under test on every run) accepts exactly the RFC 7950-valid trees (c07_exact, for all trees/schemas, under the "
+              "guards schema_ok/tree_ok); each fault class the pre-fix code missed is refuted in Coq for the flag setting fx_head and reported by the oracle. Every run validates random "
+              "valid trees and one single-fault mutation per fault class through the generated Validate; error classes are compared with the model; oracle: the verdict flips exactly on faults.",
+        note="Trusted: Coq kernel; hand transcription tied by stream 'validate'; regex patterns, decimal64 ranges, mandatory/must/when are outside the schema term (patterns and ranges are "
+             "C06); Go static typing is a guard (tree_ok). Repair flags fx are probed at run time with hand-built schemas, so the model follows the tree.",
+        coq_files=["Tree/Validate", "Tree/ValidateProofs", "Corr/ValidCorr"],
+        streams=[dict(name="validate", n=N(600, 2000))],
+        signatures=["validate/"],
+        trusted=["error texts are classified into the model's error classes by substring"],
+        partial="c07_sound/c07_complete hold under schema_ok and tree_ok (c07_exact); remaining refuted classes with all repairs: union with enum and int64 members accepts an out-of-range int64 "
+                "(c07_refuted_union_enum_int64), unset enum key leaf (c07_refuted_unset_enum_key), leafref member inside a union (c07_refuted_complete).",
+    ),
+    "C24": dict(
+        level="proof",
+        technique="Coq proof (round trip for every map iteration order, by nested induction over the message) + differential correspondence check + implementation-side oracle",
+        claim="For the transcription of protomap/proto.go on abstract ygen messages of any depth: PathsFromProto emits exactly the relative specification (c24_paths_spec), every emitted path "
+              "stripped of keys is a schemapath annotation (c24_paths_annotated), and ProtoFromPaths on ANY permutation of those paths rebuilds the message up to keyed-list entry order "
+              "(c24_roundtrip_partial, for each combination of the three repairs under the matching guard; c24_roundtrip_fixed for the repaired code). The model variant is selected by probing "
+              "the code; every case is compared with the real functions.",
+        note="Trusted: Coq kernel; hand transcription tied by stream 'protomap'; the translator protobuf descriptor/message -> Coq terms and protobuf reflection itself; Go map iteration = "
+             "arbitrary permutation (the theorem quantifies over it); TypedValue inputs, map fields, non-blank targets not modelled.",
+        coq_files=["Diffs/ProtoMap", "Diffs/ProtoMapProofs", "Corr/ProtoMapCorr"],
+        streams=[dict(name="protomap", n=N(400, 2400))],
+        signatures=["roundtrip", "path-not-annotated", "path-keys"],
+        trusted=["descriptor/message translator in c24_protomap.go", "protobuf-go reflection"],
+        partial="strict equality is refuted for any repairs (c24_refuted_list_order: entries come back in map order) and the full statement even with all repairs (c24_refuted_union: an enum "
+                "after a string member of a union comes back as the string): proved is equality up to keyed-list entry order under guard_msg.",
+    ),
+    "C30": dict(
+        level="proof",
+        technique="Coq proof (upward walk = XPath parent; traversal = set of leafref leaves) + differential correspondence + brute-force oracle",
+        claim="validate_leafrefs reports an error exactly when some set leafref leaf's value is not among the values its path selects (c30_iff), the two-step algorithm's upward walk selects what "
+              "the path denotes (c30_two_step_is_select), nothing is reported with IgnoreMissingData (c30_ignore_missing); checked against Validate in three option modes; oracle evaluates every "
+              "leafref path by brute force on the leaf map.",
+        note="Trusted: Coq kernel; uncompressed structs only (in compressed code key and target are one field); XPath subset without predicates (none in the corpus); ytypes.GetNode modelled by its result.",
+        coq_files=["Tree/Leafref", "Tree/LeafrefProofs", "Corr/ValidCorr"],
+        streams=[dict(name="leafref", n=N(600, 1500))],
+        signatures=["leafref/"],
+        trusted=["leafref side table printed by vd_leafref.go"],
+        partial="c30_iff guarded by: no leafref inside an unkeyed list, no binary leafref value; refuted without: c30_refuted_binary (panic), c30_refuted_unkeyed; predicates not modelled.",
+    ),
+    "C31": dict(
+        level="proof",
+        technique="Coq proof (frame/overwrite/merge-by-key lemmas per struct level and a whole-tree frame theorem by induction; option lemmas) + differential correspondence check + leaf-map oracle",
+        claim="On the transcription of ytypes.Unmarshal into a populated tree: IgnoreExtraFields only removes a test (c31_ignore_extra_mono); an unknown member is an error without it "
+              "(c31_unknown_member_rejected) and with it the result equals the result on the document with every unknown member removed at any depth (c31_strip_unknown_lenient/_strict); at each "
+              "struct level unmentioned fields are unchanged, mentioned leaves overwritten, leaf-lists replaced wholesale (c31_unmentioned_unchanged, c31_leaf_overwritten, c31_leaflist_replaced); "
+              "unordered list entries are merged by key, unmentioned entries kept (c31_list_merge_by_key, c31_list_unmentioned_kept, c31_list_entry_merged); every leaf of the existing tree that "
+              "the document does not touch is a leaf of the result (c31_leaves, any depth).",
+        note="Trusted: Coq kernel; same model and tie as C01/C20 (stream 'jsondec', merge family: JSON of tree B plus unknown members into populated tree A, both option settings); the oracle "
+             "compares leaf maps with a reference merge.",
+        coq_files=["Tree/Unmarshal", "Tree/MergeJson", "Tree/MergeJsonProofs", "Corr/TreeCorr"],
+        streams=[dict(name="jsondec", n=N(1800, 12000))],
+        signatures=["merge"],
+        partial="ordered-by-user lists: an element whose key already exists is an error (c31_ordered_existing_key_err), as ygot documents; known finding. Wrapper-union keyed lists never merge by "
+                "key (pointer keys): excluded from the stream, reported under C34.",
+    ),
+    "C32": dict(
+        level="proof",
+        technique="Coq proof (tree induction on a leaf abstraction) + differential correspondence",
+        claim="prune_config_false removes exactly the leaves with a config-false, non-annotated field on their path and leaves every other leaf unchanged (c32_spec: leaves after = filter kept "
+              "(leaves before)), for all trees and side tables; compared with ygot.PruneConfigFalse on all compressed/uncompressed packages; oracle: leaf map filtered by config flags derived from "
+              "the raw yang entries.",
+        note="Trusted: Coq kernel; transcription tied by stream 'prunecf'; per-alternative config/annotation facts come from a side table printed from the embedded schema.",
+        coq_files=["Tree/ConfigFalse", "Tree/ConfigFalseProofs", "Corr/ValidCorr"],
+        streams=[dict(name="prunecf", n=N(600, 1400))],
+        signatures=["prunecf/"],
+        trusted=["side table printed by vd_prunecf.go via util.FirstChild/IsConfig/Annotation"],
+        partial="",
+    ),
+    "C33": dict(
+        level="proof",
+        technique="Coq proof (schema induction) + differential correspondence",
+        claim="populate_defaults (transcription of the generated PopulateDefaults incl. BuildEmptyTree and the generator's default literal conversion): every reachable struct keeps set leaves and "
+              "gives unset leaves exactly their default (c33_fills, c33_fills_only, c33_leaflists_kept), accepted default literals are in the value space (c33_default_in_space), valid trees stay "
+              "valid when nothing PopulateDefaults creates lies inside a choice (c33_valid_partial); unguarded validity preservation is refuted (known finding).",
+        note="Trusted: Coq kernel; transcription tied by stream 'defaults' (tree after the call and Validate verdicts before/after); decimal integer literals only; typedef-inherited and leaf-list "
+             "defaults not in the schema term.",
+        coq_files=["Tree/Defaults", "Tree/DefaultsProofs", "Tree/Validate", "Corr/ValidCorr"],
+        streams=[dict(name="defaults", n=N(560, 1400))],
+        signatures=["defaults/"],
+        trusted=["float parsing of decimal64 default literals via the float oracle"],
+        partial="c33_valid only under defaults_ok (c33_valid_partial); refuted: c33_refuted_two_cases, c33_refuted_one_case, c33_refuted_container_in_case; presence containers are instantiated.",
+    ),
 }
 
 NOT_APPLICABLE = {}
